@@ -22,6 +22,10 @@ def with_stats(ops, rng, every=1.0):
     for op in ops[1:]:
         if op.startswith("race "):
             continue            # its connections are not kept by the harness: no ground truth for them
+        if op.startswith("disc ") and " pre=" not in op and rng.random() < 0.35:
+            # answer-producing requests pipelined in front of the DISCONNECT (one write), the client reads until the broker
+            # closes: whatever the broker still writes while it shuts the connection down must be counted (seed C20-3)
+            op += f" pre={rng.choice([40, 200, 400])} prek=ping"
         res.append(op)
         if every >= 1.0 or rng.random() < every:
             res.append("stats")
